@@ -1,5 +1,5 @@
 (* C11 — dry mode performs no writes.  Theorems only. *)
-From Esc Require Import Examples proofs.ScanTheorems proofs.ScanChecks.
+From Esc Require Import Examples proofs.ScanTheorems proofs.ScanChecks proofs.ScanRun proofs.ScanRunTheorems.
 
 (* with either dry-mode switch on, no call of the group's journal is a write — attempted writes included *)
 Theorem c11_no_writes : forall now gdry api g a nodes pods,
@@ -32,3 +32,9 @@ Definition ex_opts_dry : opts :=
 Example c11_ex : r_calls (ex_scan ex_opts_dry gstate0 1000) = [] /\ length (r_calls (ex_scan ex_opts gstate0 1000)) = 6%nat
                  /\ g_taint_tracker (r_state (ex_scan ex_opts_dry gstate0 1000)) = [207; 206].
 Proof. vm_compute. repeat split. Qed.
+
+(* over a whole RunOnce: the checker evaluated by the correspondence holds of every group journal the model produces
+   (group names and cloud group names pairwise distinct) *)
+Theorem c11_run_once : forall s, wf_groups s -> for_groups check_C11_group s (run_journals s) = true.
+Proof. exact run_passes_C11. Qed.
+Print Assumptions c11_run_once.
